@@ -2536,6 +2536,10 @@ class Scene:
         controls = copy.copy(controls_original)
         alpha0 = copy.copy(alpha_original)
 
+        # If the aircraft is already trimmed, the current state is the answer
+        alpha1 = alpha0
+        delta_flap1 = delta_flap0
+
         # Output initial residuals
         if verbose: print("{0:<20}{1:<20}{2:<25}{3:<25}".format(alpha0, delta_flap0, R[0], R[1]))
 
@@ -2635,11 +2639,12 @@ class Scene:
         # If the user wants, set the state to the new trim state
         set_trim_state = kwargs.get("set_trim_state", True)
         if set_trim_state:
-            airplane_object.set_aerodynamic_state(alpha=alpha1)
-            self.set_aircraft_control_state({pitch_control : delta_flap1}, aircraft=aircraft_name)
+            controls[pitch_control] = delta_flap1
+            airplane_object.set_aerodynamic_state(alpha=alpha1, v_wind=v_wind)
+            self.set_aircraft_control_state(controls, aircraft=aircraft_name)
 
         else: # Return to the original state
-            airplane_object.set_aerodynamic_state(alpha=alpha_original)
+            airplane_object.set_aerodynamic_state(alpha=alpha_original, v_wind=v_wind)
             self.set_aircraft_control_state(controls_original, aircraft=aircraft_name)
 
         # Output results to file
